@@ -16,6 +16,13 @@ theorem uint64_eq : Gen.uint64 = uint64 := by
   · rw [if_pos h, if_pos h]; rfl
   · rw [if_neg h, if_neg h]; rfl
 
+/-- closes what `simp` leaves when the source was rewritten harmlessly (commuted factors, …) -/
+macro "bridge_finish" : tactic =>
+  `(tactic| try (first
+      | rfl
+      | ac_rfl
+      | (congr 1; funext _; first | rfl | ac_rfl | (congr 1; ac_rfl) | (congr 2; ac_rfl))))
+
 @[simp] theorem ok_bind {α β} (a : α) (f : α → PyM β) : (Except.ok a >>= f) = f a := rfl
 theorem int64_zero : int64 0 = .ok 0 := by simp [int64]
 
@@ -23,26 +30,37 @@ section Int
 open IntOps
 theorem int_neg (a : Int) : Gen.IntType.neg a = neg a := by
   simp [Gen.IntType.neg, neg, wrap, int64_eq]
+  bridge_finish
 theorem int_add (a b : Int) : Gen.IntType.add a b = add a b := by
   simp [Gen.IntType.add, add, wrap, int64_eq]
+  bridge_finish
 theorem int_sub (a b : Int) : Gen.IntType.sub a b = sub a b := by
   simp [Gen.IntType.sub, sub, wrap, int64_eq]
+  bridge_finish
 theorem int_mul (a b : Int) : Gen.IntType.mul a b = mul a b := by
   simp [Gen.IntType.mul, mul, wrap, int64_eq]
+  bridge_finish
 theorem int_truediv (a b : Int) : Gen.IntType.truediv a b = truediv a b := by
   simp [Gen.IntType.truediv, truediv, wrap, int64_eq, int64_zero, pySign, bind_assoc]
+  bridge_finish
 theorem int_mod (a b : Int) : Gen.IntType.mod a b = mod a b := by
   simp [Gen.IntType.mod, mod, wrap, int64_eq, int64_zero, pySign, bind_assoc]
+  bridge_finish
 theorem int_radd (a b : Int) : Gen.IntType.radd a b = radd a b := by
   simp [Gen.IntType.radd, radd, wrap, int64_eq]
+  bridge_finish
 theorem int_rsub (a b : Int) : Gen.IntType.rsub a b = rsub a b := by
   simp [Gen.IntType.rsub, rsub, wrap, int64_eq]
+  bridge_finish
 theorem int_rmul (a b : Int) : Gen.IntType.rmul a b = rmul a b := by
   simp [Gen.IntType.rmul, rmul, wrap, int64_eq]
+  bridge_finish
 theorem int_rtruediv (a b : Int) : Gen.IntType.rtruediv a b = rtruediv a b := by
   simp [Gen.IntType.rtruediv, rtruediv, wrap, int64_eq, int64_zero, pySign, bind_assoc]
+  bridge_finish
 theorem int_rmod (a b : Int) : Gen.IntType.rmod a b = rmod a b := by
   simp [Gen.IntType.rmod, rmod, wrap, int64_eq, int64_zero, pySign, bind_assoc]
+  bridge_finish
 end Int
 
 section Uint
@@ -51,24 +69,34 @@ theorem uint_neg (a : Int) : Gen.UintType.neg a = neg a := by
   simp [Gen.UintType.neg, neg]; rfl
 theorem uint_add (a b : Int) : Gen.UintType.add a b = add a b := by
   simp [Gen.UintType.add, add, wrap, uint64_eq]
+  bridge_finish
 theorem uint_sub (a b : Int) : Gen.UintType.sub a b = sub a b := by
   simp [Gen.UintType.sub, sub, wrap, uint64_eq]
+  bridge_finish
 theorem uint_mul (a b : Int) : Gen.UintType.mul a b = mul a b := by
   simp [Gen.UintType.mul, mul, wrap, uint64_eq]
+  bridge_finish
 theorem uint_truediv (a b : Int) : Gen.UintType.truediv a b = truediv a b := by
   simp [Gen.UintType.truediv, truediv, wrap, uint64_eq, bind_assoc]
+  bridge_finish
 theorem uint_mod (a b : Int) : Gen.UintType.mod a b = mod a b := by
   simp [Gen.UintType.mod, mod, wrap, uint64_eq, bind_assoc]
+  bridge_finish
 theorem uint_radd (a b : Int) : Gen.UintType.radd a b = radd a b := by
   simp [Gen.UintType.radd, radd, wrap, uint64_eq]
+  bridge_finish
 theorem uint_rsub (a b : Int) : Gen.UintType.rsub a b = rsub a b := by
   simp [Gen.UintType.rsub, rsub, wrap, uint64_eq]
+  bridge_finish
 theorem uint_rmul (a b : Int) : Gen.UintType.rmul a b = rmul a b := by
   simp [Gen.UintType.rmul, rmul, wrap, uint64_eq]
+  bridge_finish
 theorem uint_rtruediv (a b : Int) : Gen.UintType.rtruediv a b = rtruediv a b := by
   simp [Gen.UintType.rtruediv, rtruediv, wrap, uint64_eq, bind_assoc]
+  bridge_finish
 theorem uint_rmod (a b : Int) : Gen.UintType.rmod a b = rmod a b := by
   simp [Gen.UintType.rmod, rmod, wrap, uint64_eq, bind_assoc]
+  bridge_finish
 end Uint
 
 /-- the aliases `__floordiv__ = __truediv__` present in the source (so `//` cannot bypass the checks) -/
